@@ -506,6 +506,7 @@ class Interp:
                     if args and re.match(r'^[A-Z]$', fty): fty = args[0]
                     fty = re.sub(r'\bT\b', args[0], fty) if args else fty
                     sub = name + '.' + fd['name']
+                    if base in getattr(self.f, 'newtypes', ()): sub = name
                     if norm_ty(fty) in TRANSPARENT:
                         # state grouped into a private helper struct is named as state of the parent (names are only
                         # identifiers; kept apart when they would collide)
@@ -1135,6 +1136,10 @@ class Interp:
                 if isinstance(idx, RangeV):
                     return Cell(SliceV(base, idx.lo, idx.hi))
                 if is_term(idx): return IndexPlace(self, base, idx)
+            if isinstance(base, SliceV) and isinstance(base.seq, SeqV) and is_term(base.lo):
+                if isinstance(idx, RangeV) and is_term(idx.lo) and (idx.hi is None or is_term(idx.hi)):
+                    return Cell(SliceV(base.seq, add(base.lo, idx.lo), add(base.lo, idx.hi) if idx.hi is not None else base.hi))
+                if is_term(idx): return IndexPlace(self, base.seq, add(base.lo, idx))
             return Cell(self.top('index place', e))
         # rvalue used as place: temporary
         return Cell(self.eval(e))
@@ -2214,7 +2219,12 @@ class Interp:
     def slice_segs(self, sv):
         """segments of seq[lo..hi] when resolvable"""
         seq = sv.seq
-        if not isinstance(seq, SeqV) or seq.stores: return None
+        if not isinstance(seq, SeqV): return None
+        if seq.stores:
+            # a buffer filled in place: its contents after the stores, when they resolve to pieces
+            fl = flatten_stores(seq) if seq.is_bytes() else None
+            if fl is None: return None
+            seq = SeqV(seq.elem, norm_segs(fl))
         lo, hi = sv.lo, sv.hi
         if not is_term(lo) or (hi is not None and not is_term(hi)): return None
         total = seqlen(seq.segs)
